@@ -2,7 +2,7 @@
    One theorem per reference operator: the set denoted by the reference result is the documented set.
    [fresh n s]: the system does not mention coordinate n (n = space dimension: used as scratch). *)
 From Coq Require Import List ZArith QArith.
-Require Import PPLV.Base.FM PPLV.Base.Sys PPLV.Base.Gens PPLV.Poly.PolyOps PPLV.Poly.GensLeast PPLV.Poly.PolyGenOps PPLV.Poly.PolyOpsLhs.
+Require Import PPLV.Base.FM PPLV.Base.Sys PPLV.Base.Gens PPLV.Poly.PolyOps PPLV.Poly.GensLeast PPLV.Poly.PolyGenOps PPLV.Poly.PolyOpsLhs PPLV.Poly.PosTimeElapse.
 Import ListNotations.
 Local Open Scope Q_scope.
 
@@ -157,6 +157,12 @@ Theorem C02_hull_of_many_least : forall n (Gs : list (list gen)) (t : sys),
   (forall G, In G Gs -> forall p, in_gens n G p -> sat_sys t p) ->
   forall p, in_gens n (concat Gs) p -> sat_sys t p.
 Proof. exact hull_list_least. Qed.
+
+(* positive_time_elapse_assign (exact, NNC): { p + t q | p in P, q in Q, t > 0 } *)
+Theorem C02_positive_time_elapse : forall n sP sQ x, wf_sys_dim n sP -> wf_sys_dim n sQ ->
+  (sat_sys (pos_time_elapse n sP sQ) x <->
+   exists p q t, 0 < t /\ sat_sys sP p /\ sat_sys sQ q /\ forall i, (i < n)%nat -> x i == p i + t * q i).
+Proof. exact pos_time_elapse_spec. Qed.
 
 (* poly_hull_assign_if_exact: with h the hull, the Boolean is true exactly when the union is already convex *)
 Theorem C02_hull_if_exact_flag : forall n h p q b,
